@@ -28,7 +28,7 @@ func init() {
 		ID: "C12",
 		Explanation: "Structural necessary conditions of exact text forms: R12.3 every signed add/sub/mul/neg, narrowing integer conversion and float->int conversion in package types is shown to stay " +
 			"inside its type's range by an interval analysis over go/ssa (guard refinement, path-condition case splitting, four relational guard idioms, frozen result ranges for a handful of " +
-			"standard-library calls); a post-hoc test of an already wrapped result is not a guard. Not decided: that the accepted language is exactly the documented one, calendar arithmetic.",
+			"standard-library calls); a post-hoc test of an already wrapped result is not a guard. The other rules (escape vocabulary, constructor agreement, parse-error discipline, range before UnixMilli, rune-error width, zone, quote unwrapping, sign, code-point digits, leap rule) are described in the manifest. Not decided: that the accepted language is exactly the documented one, calendar arithmetic.",
 		Run: runC12,
 	})
 }
